@@ -195,6 +195,51 @@ def backlog_case(nframes: int) -> dict[str, Any]:
             "hang": hang}
 
 
+def big_write_case(size: int, alive: str) -> dict[str, Any]:
+    """A diagnostic message of `size` bytes (TransferData blocks are that large) is written while the gateway's
+    alive check request arrives ("before": already buffered when write() starts; "during": fed when the first bytes
+    of the message have left).  Every frame on the wire must be an intact frame (D4: the written message), the
+    alive check is answered (D5) -- before or after the message, never inside it."""
+    rec = Recorder()
+    fed_names: list[str] = []
+
+    async def main() -> None:
+        gw = Gateway(rec)
+        tr = await connect(rec, gw, uri(act=1))
+        assert tr is not None
+        gw.auto_ack = "Ack"
+        data = bytes((i * 31 + 7) & 0xFF for i in range(size))
+        if alive == "before":
+            fed_names.append("AliveReq")
+            gw.feed_named("AliveReq")
+        elif alive == "during":
+            seen = [False]
+            orig = gw.wire.on_out if gw.wire is not None else None
+
+            def on_out(b: bytes) -> None:
+                if orig is not None:
+                    orig(b)
+                if not seen[0]:
+                    seen[0] = True
+                    fed_names.append("AliveReq")
+                    gw.feed_named("AliveReq")
+
+            if gw.wire is not None:
+                gw.wire.on_out = on_out
+        await do_op(rec, tr, "write", 5.0, data)
+        await asyncio.sleep(0.7)
+        await drain_and_finish(rec, tr)
+
+    hang = False
+    try:
+        vloop.run(main(), horizon=600)
+    except (TimeoutError, vloop.BlockedForever):
+        hang = True
+        rec.ev.append({"e": "Final", "t": rec.ev[-1]["t"] if rec.ev else 0, "drained": False})
+        rec.ev.append({"e": "Hang", "t": rec.ev[-1]["t"]})
+    return {"cfg": CFG, "ev": rec.ev, "prog": f"big-write/{size}/{alive}", "auto": True, "fed": fed_names, "hang": hang}
+
+
 def d1_case(act: int | None, ver: int | None, code: int | None, src: int = SRC, tgt: int = TGT) -> dict[str, Any]:
     rec = Recorder()
 
@@ -413,6 +458,10 @@ def run(tier: str, seed: int) -> Report:
     # ---- a burst while the client is idle, then an alive check
     for n in ((10, 300) if tier == "quick" else (10, 300, 3000)):
         add(backlog_case(n), "backlog-while-idle")
+    # large messages (above any plausible chunk size) with an alive check arriving before / while they are written
+    for size in ((70_000,) if tier == "quick" else (70_000, 140_000)):
+        for alive in ("none", "before", "during"):
+            add(big_write_case(size, alive), "big-write")
     # ---- spec -> code: simulated behaviours of the design layer replayed into the real transport
     nsim = 120 if tier == "quick" else 1500
     ndrift = 0
